@@ -259,6 +259,9 @@ def gen_module(rng: random.Random, name: str, earlier: list[dict[str, Any]], p_b
 			back = rng.choice(later)
 			mod['imports'].append((back, f'{cls_prefix(back)}0'))
 	pre = cls_prefix(name)
+	if rng.random() < p_bad * 0.15 and name != MAIN:
+		# a module that imports itself: its own class (found, the class symbols are inserted first) or a missing name
+		mod['imports'].append((name, f'{pre}0' if rng.random() < 0.7 else 'Nope'))
 	for i in range(rng.choice([0, 1, 1, 2])):
 		c: dict[str, Any] = {'name': f'{pre}{i}', 'methods': []}
 		for mname in ('g', 'h'):
@@ -426,9 +429,9 @@ def closure(pool_by_name: dict[str, dict[str, Any]], start: dict[str, Any]) -> s
 
 
 def has_cycle(pool: list[dict[str, Any]]) -> bool:
-	"""Import cycle among the pool modules. tranp does not support cyclic imports (a load error in fresh and session alike);
-	the model covers the plain cases, but since a383b4a the identity of a module in the middle of being loaded is computed
-	from file hashes of its direct imports, which raises for a missing file — that corner is left to the real-code search."""
+	"""Import cycle among the pool modules (used for the input distribution histogram). tranp does not support cyclic imports:
+	a load error in fresh and session alike (a module importing its own class loads); since c3eaa55 Module.identity() walks the
+	import closure with a visited set, and a mid-load module with a missing import file gives Errors.Fatal."""
 	graph = {m['name']: [d for d, _ in m['imports']] for m in pool}
 	state: dict[str, int] = {}
 
@@ -701,7 +704,7 @@ def gen_cases(ctx: Ctx, stream: str, n: int, max_ops: int, p_bad: float) -> list
 
 def case_class(case: dict[str, Any]) -> str:
 	bad = sum(1 for m in case['pool'] if not m['ok'] or any(not ok for _, ok in m['vars']) or any(n == 'Nope' for _, n in m['imports']))
-	return f"modules={len(case['pool'])},bad={bad},ops<{(len(case['ops']) // 10 + 1) * 10}"
+	return f"modules={len(case['pool'])},bad={bad},cycle={int(has_cycle(case['pool']))},ops<{(len(case['ops']) // 10 + 1) * 10}"
 
 
 _RUNS: dict[str, dict[str, Any]] = {}
@@ -753,6 +756,99 @@ def search_frame(ctx: Ctx, cases: list[dict[str, Any]]) -> SearchResult:
 		for b in run['frame_bad']:
 			res.findings.append(Finding(key='frame', what=f"op {b['op']} changed module {b['module']}: {b['what']}", replay={'case': case, **b}))
 	res.distinct = res.cases
+	return res
+
+
+
+def search_prop_keys(ctx: Ctx) -> SearchResult:
+	"""`Node.prop_keys` keeps its result in a class attribute (node.py:179-198): process-wide state that no unload clears.
+	After all the sessions of this run every cached list must equal the recomputed one (the class table itself is C09's)."""
+	from rogw.tranp.syntax.node.node import Node
+	res = SearchResult('class-level Node.prop_keys cache after all sessions == recomputed (process-wide state not cleared by unload)')
+	todo = [Node]
+	classes: list[type] = []
+	while todo:
+		c = todo.pop()
+		if c not in classes:
+			classes.append(c)
+			todo.extend(c.__subclasses__())
+	names: dict[str, list[type]] = {}
+	for c in classes:
+		names.setdefault(c.__name__, []).append(c)
+	for c in classes:
+		key = f'__{c.__name__}_prop_keys__'
+		if key not in c.__dict__:
+			continue
+		res.cases += 1
+		cached = list(c.__dict__[key])
+		try:
+			delattr(c, key)
+			fresh = list(c.prop_keys())
+		except Exception as e:  # noqa: BLE001
+			res.findings.append(Finding(key='prop-keys-cache', what=f'recomputing prop_keys of {c.__name__} raised {canon(e)}', replay={'class': c.__name__}))
+			continue
+		res.histogram[f'keys={len(cached)}'] = res.histogram.get(f'keys={len(cached)}', 0) + 1
+		if cached != fresh:
+			res.findings.append(Finding(key='prop-keys-cache', what=f'cached prop_keys of {c.__name__} = {cached}, recomputed = {fresh}', replay={'class': c.__name__, 'cached': cached, 'fresh': fresh}))
+		# the cache key contains only the class NAME and is looked up with hasattr (through the MRO): a subclass with the same
+		# name as one of its bases would read the base's list
+		for b in c.__mro__[1:]:
+			if b.__name__ == c.__name__ and b is not c:
+				res.findings.append(Finding(key='prop-keys-cache', what=f'{c.__module__}.{c.__name__} shares its cache key with its base {b.__module__}.{b.__name__}', replay={'class': c.__name__}))
+	res.distinct = res.cases
+	res.note = f'{len(classes)} node classes, {res.cases} with a cached list; same-named classes (different modules, unrelated by inheritance): {sorted(n for n, cs in names.items() if len(cs) > 1)}'
+	return res
+
+
+def audit_hash_order() -> SearchResult:
+	"""Information: every place in rogw/tranp that builds a hash-ordered container (set literal / comprehension, set(), frozenset()),
+	takes an address / hash value (id(), hash()) or lists the file system, with how the value is used. The model has no such container; the multi-seed fresh-process oracle is the check."""
+	import ast
+	res = SearchResult('audit (information): hash-ordered containers in rogw/tranp, by use')
+	sites: list[str] = []
+	for path in common.repo_py_files('rogw/tranp'):
+		try:
+			with open(path, encoding='utf-8') as f:
+				tree = ast.parse(f.read())
+		except SyntaxError:
+			continue
+		res.cases += 1
+		parents: dict[int, ast.AST] = {}
+		for node in ast.walk(tree):
+			for ch in ast.iter_child_nodes(node):
+				parents[id(ch)] = node
+		for node in ast.walk(tree):
+			kind = None
+			if isinstance(node, ast.Set):
+				kind = 'set-literal'
+			elif isinstance(node, ast.SetComp):
+				kind = 'set-comprehension'
+			elif isinstance(node, ast.Call) and isinstance(node.func, ast.Name) and node.func.id in ('set', 'frozenset'):
+				kind = f'{node.func.id}()'
+			elif isinstance(node, ast.Call) and isinstance(node.func, ast.Name) and node.func.id in ('hash', 'id'):
+				kind = f'{node.func.id}() (address / hash value)'
+			elif isinstance(node, ast.Call) and isinstance(node.func, ast.Attribute) and node.func.attr in ('glob', 'listdir', 'scandir', 'iglob', 'walk'):
+				kind = f'{node.func.attr}() (file system order)'
+			if not kind:
+				continue
+			par = parents.get(id(node))
+			use = type(par).__name__
+			if isinstance(par, ast.Compare) and any(isinstance(o, (ast.In, ast.NotIn)) for o in par.ops):
+				use = 'membership-test'
+			elif isinstance(par, (ast.For, ast.comprehension)) and getattr(par, 'iter', None) is node:
+				use = 'ITERATED'
+			elif isinstance(par, ast.Call) and isinstance(par.func, ast.Name):
+				use = f'arg of {par.func.id}()' + (' ORDER-SENSITIVE' if par.func.id in ('list', 'tuple', 'enumerate', 'zip', 'iter', 'next') else '')
+			elif isinstance(par, ast.Call) and isinstance(par.func, ast.Attribute) and par.func.attr == 'join':
+				use = 'JOINED'
+			elif isinstance(par, (ast.Assign, ast.AnnAssign, ast.Return)):
+				use = {'Assign': 'assigned', 'AnnAssign': 'assigned', 'Return': 'returned'}[type(par).__name__]
+			rel = os.path.relpath(path, common.REPO)
+			sites.append(f'{rel}:{node.lineno} {kind} -> {use}')
+			res.histogram[f'{kind} -> {use}'] = res.histogram.get(f'{kind} -> {use}', 0) + 1
+	res.distinct = len(sites)
+	res.samples = sites[:2]
+	res.note = f'{len(sites)} sites in {res.cases} files: ' + '; '.join(sites)
 	return res
 
 
@@ -865,11 +961,14 @@ STATEMENTS: dict[str, str] = {
 	'inv_stable': 'Stable = Coherent + every registered module holds exactly its reference table + symbol files are reference tables; preserved by every operation (ok, raising, rolled back) that does not unload the pinned library base',
 	'det_ref': 'in every reachable state transpile m = the reference result of m: render(m, tree, reference tables) for a module with reference table, the reference error (first failing import in load order / parser / ExpandModules) otherwise',
 	'det': 'DETERMINISM over all histories: two processes over the same files with the same current in-memory source answer transpile m identically (texts, render errors, load errors), whatever their histories of load / transpile / unload / resubmit were and whichever operations failed',
+	'inv_stableU / det_all': 'the same over ALL histories including unloads of library modules (cascade: afterwards only base modules are registered), for every module outside the library base; extra hypothesis BaseWorld: loading base modules while only base modules are registered restores their base tables',
+	'unload_fuel': 'the cascade of unload never runs out of fuel: every fuel >= number of registered modules gives the same state',
 	'unload_load': 'unload m; load m gives m the tree of its source and exactly its reference table, as a load in any other stable state does',
 	'targets_sound / targets': 'every result the Runner produces is the reference result of its target; runs over permuted target lists without failing target produce the same (target, text) pairs',
 }
 PARTIAL: dict[str, Any] = {
 	'proved': 'cache coherence for all histories (inv, frame, unload_*, stack_frames); determinism for all histories of operations incl. failing ones (det, det_ref), unload/load = fresh load, target-order equivariance — on the model of the repaired Modules (rollback, cascade, re-check)',
+	'cycles': 'the model follows the code on import cycles (registration before imports, Module.identity() of c3eaa55: depth-first walk of the import closure with a visited set, mid-load fallback -> Errors.Fatal for a missing import file, self-imports, rollback, cascade) and is tied by the streams on cyclic pools; det / det_all assume an acyclic import graph, so for cyclic pools session == fresh is checked by the search only',
 	'remaining_hypotheses': 'World: dotted module names; ExpandModules / renderer read the symbol table only inside the import closure (proved for the descriptor language); acyclic import graph; no file imports the in-memory module; the library modules and their imports are a pinned base that the history does not unload; no RecursionError',
 	'regression': 'the three former counterexamples (failed-load-retry, dep-unloaded, lib-closure-first) are examples proved equal to the fresh result by decide, and corpus cases that must pass on the real code',
 	'correspondence_only': 'that the real Modules/Entrypoints/SymbolDB/processors/transpile stacks behave like the model on generated pools (streams session, session-faulty); the concrete descriptor language (which keys ExpandModules inserts, when the renderer fails)',
@@ -880,7 +979,8 @@ ASSUMPTIONS: list[str] = [
 	'ExpandModules reads the symbol table only at keys of the module, its direct imports and the pinned base (World.local_expand); the renderer depends only on the tables of an import-closed set containing the module and the base (RenderLocal) — both proved for the descriptor language of the driver (desc_local_expand, desc_render_local)',
 	'for det: acyclic import graph (rank), no file imports the in-memory module, the library base is not unloaded by the history (unloading library modules is covered by the streams and the search only), and no operation hit RecursionError (model fuel; the cascade of unload has fuel = number of registered modules, which suffices)',
 	'SymbolDB key order inside one module and the `_order_keys` order of symbol files are not modelled (no modelled consumer reads the order); store/restore is modelled as saving / re-inserting the module rows',
-	'per-module DI containers (lang/di.py combine) are not part of this model (C19); all node memo tables of a module are modelled as one memo table per entrypoint',
+	'per-module DI containers (lang/di.py combine) are not part of this model (C19); all node memo tables of a module are modelled as one memo table per entrypoint; the class-level Node.prop_keys cache (process-wide, not cleared by unload) is checked on the real code (cached == recomputed after all sessions), the class table itself is Props/C09',
+	'det_all additionally assumes BaseWorld.load (the library stubs load deterministically to their base tables from any base-only coherent state): not derived in the model, exercised by the streams and the search (ops on library modules)',
 ]
 
 
@@ -937,20 +1037,21 @@ def run_checked(ctx: Ctx, before: str | None) -> int:
 		return common.finish(ctx, proof, [], [res], statements=STATEMENTS, partial=PARTIAL, assumptions=ASSUMPTIONS)
 	corpus = [norm_case(c) for c in corpus_cases()]
 	with ctx.timed('generate'):
-		valid = gen_cases(ctx, 'session', ctx.scale(10, 60), ctx.scale(12, 40), 0.15)
-		faulty = gen_cases(ctx, 'session-faulty', ctx.scale(12, 80), ctx.scale(12, 40), 1.0)
+		valid = gen_cases(ctx, 'session', ctx.scale(8, 60), ctx.scale(12, 40), 0.15)
+		faulty = gen_cases(ctx, 'session-faulty', ctx.scale(6, 40), ctx.scale(12, 40), 1.0)
 		n_faulty = ctx.scale(6, 40)
 	with ctx.timed('correspondence'):
-		# pools with an import cycle stay in the real-code search (session == fresh must hold there too), not in the tie
-		streams = [stream_session(ctx, 'session', [c for c in [*corpus, *valid] if not has_cycle(c['pool'])]),
-			stream_session(ctx, 'session-faulty', [c for c in faulty if not has_cycle(c['pool'])][:n_faulty])]
+		# pools with an import cycle are part of the tie again: the model follows Module.identity() (mid-load fallback) since round 3
+		streams = [stream_session(ctx, 'session', [*corpus, *valid]), stream_session(ctx, 'session-faulty', faulty[:n_faulty])]
 	with ctx.timed('search'):
-		fresh_cases = [*corpus, *valid[:ctx.scale(4, 20)], *faulty[:ctx.scale(3, 12)]]
+		fresh_cases = [*corpus, *valid[:ctx.scale(3, 20)], *faulty[:ctx.scale(3, 12)]]
 		searches = [
 			search_fresh(ctx, fresh_cases, ctx.scale(2, len(corpus) + 4)),
 			search_frame(ctx, [c for c in [*corpus, *valid, *faulty] if c['id'] in _RUNS]),
 			search_interactive(ctx),
 			search_runner(ctx),
+			search_prop_keys(ctx),
+			audit_hash_order(),
 		]
 	if before is not None and tree_fingerprint() != before:
 		raise common.InfraError(f'{common.REPO} changed while the check was running: session and fresh-process results are not comparable, run again')
